@@ -3,7 +3,9 @@
 usage: run_queries.py <PROP> <tier> <seed> [name-filter,...]      |      run_queries.py --one <PROP> <tier> <query-name> <out.json>"""
 import sys, os, json, time, subprocess, traceback
 sys.path.insert(0, os.path.dirname(os.path.abspath(__file__)))
-WORK = "/verif/.build/mir/work"
+sys.path.insert(0, os.path.join(os.path.dirname(os.path.dirname(os.path.abspath(__file__))), "lib"))
+import vpaths
+WORK = os.path.join(vpaths.BUILD, "mir", "work")
 
 
 def registry(tier):
@@ -62,8 +64,8 @@ def run_one(prop, tier, qname, out):
         rec = {"name": qname, "verdict": "inconclusive", "why": "%s: %s" % (type(e).__name__, str(e)[:600]), "traceback": traceback.format_exc()[-1500:]}
     rec["wall_s"] = round(time.time() - t0, 1)
     if rec.get("verdict") == "violation":
-        rp = "/verif/replays/%s-%s.json" % (prop, qname)
-        os.makedirs("/verif/replays", exist_ok=True)
+        rp = os.path.join(vpaths.REPLAYS, "%s-%s.json" % (prop, qname))
+        os.makedirs(vpaths.REPLAYS, exist_ok=True)
         json.dump({k: v for k, v in rec.items() if k in ("name", "symptom", "trace", "inputs", "results", "replay_spec", "native_history", "native_segments", "bounds", "threads")}, open(rp, "w"), indent=1)
         rec["replay"] = rp
     json.dump(rec, open(out, "w"), indent=1, default=str)
@@ -77,7 +79,8 @@ def main():
     import mirdump
     t0 = time.time()
     path, dump_s = mirdump.dump()        # once, before the workers start (they then find the digest-stamped dump)
-    names = [n for n, qt, _ in registry(tier).get(prop, []) if (tier == "thorough" or qt == "quick") and (not filt or any(f in n for f in filt))]
+    # the driver (lib/props.py) is the authority on which queries belong to which tier: with an explicit list the names are taken as given
+    names = [n for n, qt, _ in registry(tier).get(prop, []) if ((n in filt) if filt else (tier == "thorough" or qt == "quick"))]
     os.makedirs(WORK, exist_ok=True)
     jobs = int(os.environ.get("VERIF_MIR_JOBS", "8"))
     pending = list(names); running = {}; results = []
